@@ -61,6 +61,9 @@ def eol_selection(ctx, fname):
 def delete_discipline(ctx, rule):
     """T1: bytes are deleted from the buffer only after a complete unit was found"""
     for fname in ("parseLine", "parseLeader"):
+        if fname != "parseLine" and delegates_to_parseLine(ctx, fname):
+            ctx.ok(rule, ctx.fn("aio.http.httping", fname), "%s reads its lines through parseLine(raw, eols): parseLine's discipline applies" % fname)
+            continue
         f = ctx.fn("aio.http.httping", fname)
         V = FuncView(ctx, f)
         dels = [n for n in V.cfg.nodes if isinstance(n.ast, ast.Delete) and src(n.ast.targets[0]).startswith("raw[")]
@@ -186,7 +189,7 @@ def scan_offsets(ctx, rule):
                     break
             ctx.check(not why, rule, call, "%s: %s resume offset is reset on consumption and backs up over a straddling delimiter" % (fname, src(call)),
                       "; ".join(why))
-    ctx.floor(rule + ":searches", n_find, 2)
+    ctx.floor(rule + ":searches", n_find, 1 if delegates_to_parseLine(ctx, "parseLeader") else 2)
 
 
 def wait_before_read(ctx, rule):
@@ -570,3 +573,66 @@ def buffer_consumers(ctx, rule):
                               "depends on how the stream was cut into receives (a byte dropped as `the LF of a split CRLF` long after "
                               "that CR, a trimmed prefix), so the same stream parses differently for different splits")
     return k
+
+
+def driver_resumes_every_call(ctx, rule):
+    """Parsent.parse / EventSource.parse are called once per service pass: whenever a parser exists it is resumed - the generator
+    itself decides whether the buffer holds enough to go on.  A driver that second-guesses it (same size as last time, no new
+    receive flagged) skips the resume in which the buffered bytes would have been consumed."""
+    from ..rules import path_condition, formula_equiv
+    ctx.rule(rule, "Parsent.parse / EventSource.parse: next(self.parser) runs exactly when self.parser is set")
+    for cn in ("Parsent", "EventSource"):
+        f = ctx.cls("http.httping", cn).own_method("parse")
+        V = FuncView(ctx, f)
+        nx = [n for n, c in V.calls("next") if c.args and src(V.sym(c.args[0], n)) == "self.parser"]
+        ok = len(nx) == 1 and formula_equiv(path_condition(V, nx[0]), "self.parser")
+        ctx.check(ok, rule, f, "%s.parse: if self.parser: next(self.parser)" % cn,
+                  "the amount of buffered data is no measure of progress: a pass that consumed c bytes followed by a receive of "
+                  "exactly c bytes looks unchanged; skipping the resume then leaves a complete message unparsed for good")
+
+
+def last_chunk_consumes_terminator(ctx, rule):
+    """the chunked body ends `0 CRLF *(trailer CRLF) CRLF`: after the last-chunk line the trailer section - down to and including
+    the empty line - is always read (parseLeader consumes it), trailers or not"""
+    ctx.rule(rule, "parseChunk: on size == 0 every path to the result passes next(<parseLeader generator>)")
+    f = ctx.fn("aio.http.httping", "parseChunk")
+    V = FuncView(ctx, f)
+    cfg = V.cfg
+    zt = [(t, lab) for t, lab in V.ptests(lambda t: isinstance(t, ast.Compare) and len(t.ops) == 1 and isinstance(t.ops[0], ast.Eq) and
+                                          {src(t.left), src(t.comparators[0])} == {"size", "0"})]
+    if not zt:
+        zt = [(t, lab) for t, lab in V.ptests(lambda t: src(t) == "size")]
+        zt = [(t, "F" if lab == "T" else "T") for t, lab in zt]
+    V.need(zt, "`size == 0` test in parseChunk")
+    t, lab = zt[0]
+    start = [b for b, l in cfg.succ[t.id] if l == lab]
+    nexts = []
+    for n, c in V.calls("next"):
+        if c.args and src(V.sym(c.args[0], n)).startswith("parseLeader("):
+            nexts.append(n)
+    results = [n for n in cfg.nodes if any(isinstance(x, ast.Yield) and isinstance(x.value, ast.Tuple) for x in cfg.walk_node(n))]
+    V.need(results, "yield (size, parms, trails, chunk)")
+    ok = bool(nexts) and bool(start) and cfg.must_pass(V.ids(results), V.ids(nexts), start=start[0])
+    ctx.check(ok, rule, f, "parseChunk: the last chunk always runs the trailer parser (which consumes the closing empty line)",
+              "if the trailer section is only parsed when a trailer line follows, the empty line that ends the chunked body stays in "
+              "the buffer: on a keep-alive connection it is read as the start of the next message, which is then rejected or shifted")
+
+
+def delegates_to_parseLine(ctx, fname):
+    """does `fname` read its lines through a parseLine(raw=<its raw>, eols=<its eols>) generator and never touch the buffer
+    itself?  Then line selection and consumption are parseLine's (checked there) and the rules on fname's own search loop and
+    deletion have nothing to look at."""
+    f = ctx.fn("aio.http.httping", fname)
+    calls = [c for c in ast.walk(f) if isinstance(c, ast.Call) and (call_name(c) or "").split(".")[-1] == "parseLine"]
+    if not calls:
+        return False
+    params = [a.arg for a in f.args.args]
+    for c in calls:
+        kw = {k.arg: src(k.value) for k in c.keywords}
+        pos = [src(a) for a in c.args]
+        raw = kw.get("raw", pos[0] if pos else None)
+        eols = kw.get("eols", pos[1] if len(pos) > 1 else None)
+        if raw != "raw" or eols != "eols" or "raw" not in params or "eols" not in params:
+            return False
+    touches = [x for x in ast.walk(f) if isinstance(x, ast.Name) and x.id == "raw" and not any(x in ast.walk(c) for c in calls)]
+    return not touches
